@@ -233,6 +233,7 @@ def replay_schedule(kind, sched, n=1, patches=None):
 
     def g_open(path, mode='r'):
         gate.wait_turn(tls.tid, 'open')
+        opened[tls.tid] = opened.get(tls.tid, 0) + 1
         f = real_open(path, mode)
         gate.done(tls.tid, 'open')
         return GatedFile(f)
@@ -267,9 +268,18 @@ def replay_schedule(kind, sched, n=1, patches=None):
     path = os.path.join(d, 'x.lck')
     k = 1 + max(t for t, _, _ in vis_sched)
     errors = []
-    rand_choices = {}
+    # SemLock starts at a random slot: the (invisible) choice is the slot of the contender's next scheduled open
+    opens = {}
     for lab in sched:
-        pass
+        if lab[0] != 'env' and lab[2].startswith('open:'):
+            opens.setdefault(lab[0], []).append(int(lab[2].split(':')[1]))
+    opened = {}
+
+    def g_randint(a, b):
+        q = opens.get(tls.tid, [])
+        i = opened.get(tls.tid, 0)
+        return q[i] if i < len(q) and a <= q[i] <= b else a
+    lk.random = NS(randint=g_randint)
 
     def contender(tid):
         tls.tid = tid
@@ -330,7 +340,7 @@ def run_mutex(spec):
     out = dict(stats=stats, functions=functions, engine='E3')
     # refutation first (bit-blasted BMC is cheap), then the inductive argument
     T = a.get('T', 24)
-    r, dt, sched = protocol.bmc_bv(aut, sem, T, limit=limit)
+    r, dt, sched = protocol.bmc_bv(aut, sem, T, limit=limit, budget_s=a.get('bmc_budget_s', 90))
     stats.update(queries=T, solver_s=round(dt, 2), bmc_horizon=T, bmc_verdict=r)
     if r == 'sat':
         ok, detail = replay_schedule(kind, sched, n, patches)
@@ -456,7 +466,7 @@ CANARIES = [
     ('timeout raised without looking at the clock', 'run_timeout_rule', dict(style='keep'),
      {'mapproxy.util.lock': [("                if current_time < stop_time:\n                    time.sleep(self.step)\n                    continue\n                else:",
                               "                if False:\n                    time.sleep(self.step)\n                    continue\n                else:")]}),
-    ('semaphore cycles over n+1 slot files', 'run_mutex', dict(style='sem', k=3, n=2),
+    ('semaphore cycles over n+1 slot files', 'run_mutex', dict(style='sem', k=3, n=2, bmc_budget_s=600),
      {'mapproxy.util.lock': [("            i = (i+1) % self.n", "            i = (i+1) % (self.n+1)")]}),
 ]
 
